@@ -67,8 +67,11 @@ pub fn make_module() -> KMap {
                 let expected_error = "|Number, Number|";
 
                 match ctx.instance_and_args(is_number, expected_error)? {
-                    (Number(a), [Number(b)]) if *b >= 0 => {
+                    (Number(a), [Number(b)]) if *b >= 0 && *b < 64 => {
                         Ok((i64::from(a) $op i64::from(b)).into())
+                    }
+                    (Number(_), [Number(b)]) if *b >= 64 => {
+                        runtime_error!("the shift amount must be less than 64 (found {b})")
                     }
                     (instance, args) => {
                         unexpected_args_after_instance(expected_error, instance, args)
